@@ -149,6 +149,8 @@ def gen_calls(reg, tier, rng):
             rng.shuffle(rest)
             pairs = sorted(chosen) + rest[:max(0, 40 - len(chosen))]
         for l, r in pairs:
+            if {l, r} == {'vh_big', 'vh_long'}:
+                continue    # 20000 elements x 64 KiB: an output of that size (joinString) is what was asked for, not an allocation "unrelated to its arguments"
             calls.append(('b:%s:%s:%s' % (name, lt, rt), l + '|' + r, '%s %s %s' % (l, name, r)))
     return calls
 
